@@ -185,6 +185,46 @@ func makeBoxes(tier string) []*Box {
 			Depth: 400, MaxDev: 1, Kinds: kinds(evCampaign, evPropose, evHeartbeat, evCrash, evRestart, evCompact, evLag, evApply, evUnlag), Devs: kinds(evDrop, evApply, evLag),
 			LeaderPropose: true, CampaignAt: 1, Restrictions: []string{"one election, by node 1", "proposals at the leader only"}, Share: 30})
 	}
+	// ---- B12: persist lag (the application is slow BEFORE it has persisted a Ready).
+	// In B10 / B11 a lagging node persists and sends a Ready at once and holds only the committed
+	// page. Here a node in plag mode (see evPLag in cluster.go) holds the WHOLE Ready - nothing
+	// persisted, nothing sent, nothing applied - while the RawNode keeps stepping whatever arrives,
+	// which is what node.run does from the moment the application has taken a Ready from readyc.
+	// persist(n) then writes HardState / snapshot / entries from the held value, i.e. from
+	// whatever its slices contain at that moment, sends, applies, advances and holds the next
+	// Ready; a crash loses a held Ready entirely. At every release the held Ready is compared with
+	// a deep copy taken at the hand-out (ReadyMutatedAfterHandOut: the application owns
+	// Ready.Entries / CommittedEntries / Messages / Snapshot until Advance) and the storage
+	// invariants (PersistedLogTermsNonDecreasing, LogMatching, CommittedEntryRewritten, ...) see
+	// the storage exactly as that release left it.
+	//
+	// The window that matters: the slow node F holds an unpersisted Ready whose Entries are
+	// [.., i, i+1, i+2] of term t, and steps a MsgApp of a leader of term t+1 whose log ends at i
+	// (prev = (i, t), one entry (i+1)@(t+1)): the library truncates in the middle of its unstable
+	// entries (third case of unstable.truncateAndAppend) while the application still owns the
+	// slice that covers i+1 and i+2. With three voters F cannot be a voter: the new leader would
+	// need F's vote (the old leader has everything) and F's log is the longest. Five voters work
+	// (10 more messages per round); the smallest configuration is voters {1,2,3} and F = node 4
+	// as LEARNER: its log is empty when it is added, so the leader's probe is rejected and the
+	// retry carries the whole log in ONE MsgApp (1 MiB messages). The run (hand-built with
+	// `raftmc scenario plain+1 C1 Q G4 F12 Q K2 K3 P1 Q P1 Q B4 Q R2 R3 C3 Q B4`, 52 events, no
+	// deviation): campaign(1) .. plag(4) proposeConf(1, addLearner 4) .. [4 holds its reject]
+	// crash(2) crash(3) propose(1,p1) propose(1,p2) [6@t2 7@t2 exist on node 1 only] persist(4)
+	// [reject leaves, 1 answers with entries 1..7, 4 holds the Ready with Entries 1..7]
+	// restart(2) restart(3) campaign(3) [2 votes; 3 leads term 3 with a log that ends at 5, sends
+	// 6@t3 with prev=(5,t2) to the learner, which steps it while holding] persist(4). Budgets of
+	// that run: term <= 3, 2 proposals, 2 crashes, 1 conf change, 1 plag, 2 persists: box B12, both
+	// tiers, exhaustive within these bounds and the stated restrictions, no sampling, no
+	// deviation needed (every event of the run happens at a quiescent point).
+	plag4 := cfgPlain(3, true)
+	plagKinds := kinds(evCampaign, evPropose, evConf, evCrash, evRestart, evPLag, evPersist, evUnplag)
+	plagRestr := []string{"only node 4 (the learner) enters persist-lag mode", "first election (term 2) by node 1 only, second election (term 3) by node 3 only",
+		"proposals and the conf change at the leader only", "conf change: addLearnerV2(4)", "only nodes 2 and 3 crash",
+		"no deviations: every message is delivered in FIFO order, driver events happen at quiescent points (messages to a node that is down are lost)"}
+	add(&Box{ID: "B12", Mode: "B", What: "persist lag on a learner: node 4 holds whole Readys (nothing persisted, sent or applied) while it keeps stepping messages; it receives the whole log in one MsgApp and, before it has persisted it, the first MsgApp of a later-term leader whose log is shorter (truncation in the middle of the unstable entries the application is about to persist)",
+		Cfg: plag4, Bud: Budget{MaxTerm: 3, Proposals: 2, Crashes: 2, ConfChanges: 1, Plags: 1, Persists: 2},
+		Depth: 400, MaxDev: 0, Kinds: plagKinds, Devs: kinds(evDrop),
+		LeaderPropose: true, LagAt: 4, CampaignBy: map[uint64][]int{0: {}, 1: {1}, 2: {3}}, CrashAt: []int{2, 3}, ConfVariants: []uint16{ccAddLearner}, Restrictions: plagRestr, CollectAll: true, Share: pick(10, 20)})
 	add(&Box{ID: "B4", Mode: "B", What: "membership changes: add node 4 as voter or as learner then promote, remove node 3 (also while it leads), joint consensus with automatic and explicit leave; two changes per run",
 		Cfg: cfgPlain(3, true), Bud: Budget{MaxTerm: 3, Drops: 9, Dups: 9, ConfChanges: 2},
 		Depth: 400, MaxDev: pick(1, 2), Kinds: kinds(evCampaign, evConf), Share: pick(10, 95)})
@@ -231,6 +271,7 @@ func makeBoxes(tier string) []*Box {
 			CampBy  map[uint64][]int `json:"campaign_by"`
 			ConfVar []uint16         `json:"conf_variants"`
 			CampAt  uint8            `json:"campaign_at"`
+			CrashAt []int            `json:"crash_at"`
 			Bud     Budget           `json:"budgets"`
 			MaxDev  int              `json:"max_deviations"`
 			Depth   int              `json:"max_depth"`
@@ -271,7 +312,7 @@ func makeBoxes(tier string) []*Box {
 		if t.Joiners > 0 {
 			b.Cfg = withJoiners(b.Cfg, t.Joiners)
 		}
-		b.LagAt, b.CampaignBy, b.ConfVariants, b.CampaignAt = t.LagAt, t.CampBy, t.ConfVar, t.CampAt
+		b.LagAt, b.CampaignBy, b.ConfVariants, b.CampaignAt, b.CrashAt = t.LagAt, t.CampBy, t.ConfVar, t.CampAt, t.CrashAt
 		bs = append(bs, b)
 	}
 	for _, b := range bs {
